@@ -5,6 +5,7 @@
 From Coq Require Import ZArith List Bool.
 From AV Require Import Gen.Utils Gen.SctpConst Model.SctpRecv Proof.SerialP Proof.SctpC01P Proof.SctpShiftP.
 From AV Require Model.SctpTx Model.SctpSend Proof.SctpTxShiftP Proof.SctpSsnShiftP Proof.SctpSendSsnP.
+From AV Require Model.Chan Proof.ChanSeqShiftP.
 From AV Require Model.RtpRecv Proof.NackShiftP Model.RtpSend Proof.RtpHistShiftP Lib.RtpX.
 From AV Require Model.Jitter Model.Stats Proof.JitterP Proof.JitterInvP Proof.JitterShiftP Proof.StatsRunP Proof.StatsShiftP.
 Import ListNotations.
@@ -172,10 +173,29 @@ Theorem C17_rtp_history_shift : forall d s ops,
 Proof. exact HS.history_origin_independent. Qed.
 Print Assumptions C17_rtp_history_shift.
 
-(* PARTIAL: the corresponding statement for the reconfiguration sequence numbers is not a theorem; they are covered by the metamorphic oracle of this check, which re-runs
-   the real implementation with shifted origins (two-endpoint SCTP schedules with TSN
-   origins at 0 / just below 2^32 / 2^31, NackGenerator, StreamStatistics,
-   JitterBuffer) and compares the observable behaviour. *)
+(* 7. Reconfiguration sequence numbers (RE-CONFIG request / response numbering of the
+   data-channel layer, Model/Chan.v).  For ANY state whose own request counter (and pending
+   request, if any) is a 32-bit number, ANY input list - channel creation, sends, closes, flushes,
+   RE-CONFIG transmissions, incoming reset requests and responses (32-bit response numbers),
+   association set-up and tear-down, every interleaving - and ANY deltas k1, k2: the endpoint
+   whose own numbering is shifted by k1 and whose peer's numbering is shifted by k2 (mod 2^32),
+   given the same inputs with the sequence numbers in them shifted, emits the same events with
+   only the request / response numbers shifted, and reaches the same state with only the three
+   sequence fields shifted: which channels open, close, get reset, and when, does not depend on
+   where the numbering starts or whether it wraps. *)
+Module CS := AV.Proof.ChanSeqShiftP. Module CH := AV.Model.Chan.
+Theorem C17_reconfig_seq_shift : forall k1 k2 is s, CS.sok s -> Forall CS.iok is ->
+  CH.run (CS.shq k1 k2 s) (map (CS.shi k1 k2) is) =
+  (CS.shq k1 k2 (fst (CH.run s is)), map (map (CS.she k1 k2)) (snd (CH.run s is))).
+Proof. exact CS.run_shift. Qed.
+Print Assumptions C17_reconfig_seq_shift.
+
+(* PARTIAL: none of the sequence spaces named by the property is left to the oracle alone; the
+   metamorphic oracle of this check still re-runs the real implementation with shifted origins
+   (two-endpoint SCTP schedules with TSN origins at 0 / just below 2^32 / 2^31, NackGenerator,
+   StreamStatistics, JitterBuffer) and compares the observable behaviour.  Not covered by a
+   theorem: the composition of the separate shift theorems into one statement about a whole
+   peer connection. *)
 
 (* non-vacuity of 2d: counters 65535 vs 3 on stream 1 (e = 4), two ordered messages, the second
    chunk arrives first and once more at the end *)
@@ -210,6 +230,25 @@ Example C17_history_example :
   pay (RS.run (s0 65535) [RS.Frame f; RS.Nack [65535; 0; 77]]) = [[(65535, [1]); (0, [2])]; [(500, [255; 255; 1]); (501, [0; 0; 2])]] /\
   pay (RS.run (HS.shs 4 (s0 65535)) (map (HS.shop 4) [RS.Frame f; RS.Nack [65535; 0; 77]])) = [[(3, [1]); (4, [2])]; [(500, [0; 3; 1]); (501, [0; 4; 2])]].
 Proof. vm_compute. split; reflexivity. Qed.
+
+(* non-vacuity of 7: own numbering at 2^32 - 1 resp. 4 (k1 = 5), the peer's shifted by 7: create,
+   establish, flush, ACK, close, RE-CONFIG request numbered 4294967295 resp. 4, response, closed *)
+Example C17_reconfig_example :
+  let ins := [CH.ICreate false None true None None [104] []; CH.IEstablished; CH.IFlush [false; false];
+              CH.IRecv 1 WEBRTC_DCEP [DATA_CHANNEL_ACK] true []; CH.IClose 0 false; CH.ITransmitReconfig;
+              CH.IResetResponse 4294967295; CH.IResetRequest 100 [1]] in
+  let s0 := CS.init_at 1 4294967295 99 in
+  CS.sok s0 /\ Forall CS.iok ins /\
+  nth 5 (snd (CH.run s0 ins)) [] = [CH.EvReconfigRequest 4294967295 [1]] /\
+  nth 5 (snd (CH.run (CS.shq 5 7 s0) (map (CS.shi 5 7) ins))) [] = [CH.EvReconfigRequest 4 [1]] /\
+  nth 6 (snd (CH.run s0 ins)) [] = [CH.EvClose 0] /\
+  nth 7 (snd (CH.run (CS.shq 5 7 s0) (map (CS.shi 5 7) ins))) [] = [CH.EvReconfigResponse 107].
+Proof.
+  assert (R : CS.r32 4294967295) by (unfold CS.r32; split; [discriminate|reflexivity]).
+  split; [split; [exact R|exact I]|].
+  split; [repeat (constructor; [first [exact I|exact R]|]); constructor|].
+  vm_compute. repeat split.
+Qed.
 
 Example C17_example :
   let c t f l := mkChunk t 1 0 false f l 53 [7] in
